@@ -172,6 +172,8 @@ Definition prop_ok (c : case) : bool :=
         no_leak_obs m svcs vss cfg ls oscope && complete_obs m svcs cfg ls oscope &&
         listeners_obs m svcs vss cfg ls ols
   | Paths _ m svcs vss cfg lf ls of_ os_ =>
+      (negb (real_ns cfg && forallb (wf_service m) svcs) ||
+       (no_leak_obs m svcs vss cfg lf (snd of_) && no_leak_obs m svcs vss cfg ls (snd os_))) &&
       Nat.eqb (List.length (fst of_)) (List.length (fst os_)) &&
       forallb (fun '(a, b) => same_set (fst a) (fst b)) (combine (fst of_) (fst os_)) &&
       list_eqb o_eqb (snd of_) (snd os_)
